@@ -1178,6 +1178,8 @@ def menu(ctx, path):
         for a, b in itertools.permutations(base, 2):
             if a[0] == b[0]:
                 continue
+            if "reorder-nodes" in (a[0], b[0]) and {a[0], b[0]} & {"mirror", "translate"}:
+                continue  # the reordered models are compared by drawing position and for equal handedness
             variants.append([a, b])
         variants += [[["mirror1", i]] for i in range(n_frag)]
     return variants
